@@ -52,7 +52,7 @@ def import_xdoctest():
 # trace injector: asynchronous faults at the k-th in-scope line event
 # ----------------------------------------------------------------------------
 
-PEER_SCOPE = {'op', 'emit', 'emitop', 'emitnoeol', 'abg', 'deco', '_emit_text', 'sayval', 'writeto', 'say', 'aop', '_write', 'point', 'names', 'modglobal',
+PEER_SCOPE = {'op', 'emit', 'emitop', 'emitnoeol', 'emitcr', 'keepstream', 'writekept', 'abg', 'deco', '_emit_text', 'sayval', 'writeto', 'say', 'aop', '_write', 'point', 'names', 'modglobal',
               '__aenter__', '__aexit__', '__anext__', '_raise_via'}
 
 
@@ -176,7 +176,9 @@ def filters_repr(filters):
 def compare_snaps(a, b, allow_path_delta=None):
     """-> list of (rule suffix, detail).  Compared exactly as C12 words it."""
     bad = []
-    if b.stdout is not a.stdout:
+    if allow_path_delta and len(allow_path_delta) > 4 and allow_path_delta[4]:
+        pass        # the imported module's own body replaced sys.stdout (bare import): its doing
+    elif b.stdout is not a.stdout:
         bad.append(('R1', 'sys.stdout is %s, was %s' % (type(b.stdout).__name__, type(a.stdout).__name__)))
     if b.stderr is not a.stderr:
         bad.append(('R1', 'sys.stderr is %s, was %s' % (type(b.stderr).__name__, type(a.stderr).__name__)))
@@ -559,6 +561,17 @@ def execute(scn, root, count_only=False):
     write_world(files, pkgroot)
     env = scn.get('env', {})
     seams.set_environment(env.get('environ', {}), env.get('argv', ['xdsim']))
+    if env.get('warnings_error'):
+        warnings.simplefilter('error')                       # the host runs with -W error
+    if env.get('bad_finder'):
+        # an import hook of the host whose cache invalidation is broken (nothing calls it on the unchanged tree)
+        class _SimFinder:
+            def find_spec(self, name, path=None, target=None):
+                return None
+
+            def invalidate_caches(self):
+                raise RuntimeError('sim: finder cannot invalidate its caches')
+        sys.meta_path.append(_SimFinder())
     if env.get('tracebacklimit') is not None:
         sys.tracebacklimit = int(env['tracebacklimit'])     # a process-wide setting of the host program
     from xdoctest.utils import util_str as _ustr
